@@ -142,8 +142,10 @@ def full_traversal_loop(ctx, cfg, a, body, owners, cl, owner_local, finisher_bb)
     if o is None:
         return None
     for lp in find_loops(a):
-        if lp.breaks or not lp.none_targets or not all(a.dominates(t, finisher_bb) for t in lp.none_targets):
+        if not lp.none_targets or not all(a.dominates(t, finisher_bb) for t in lp.none_targets):
             continue
+        if any(y == finisher_bb or a.reaches(y, finisher_bb) for (x, y) in lp.breaks):
+            continue  # the loop can be left early on a path that still reaches the finisher
         if find_in(lp.pipe, lambda t: isinstance(t, tuple) and len(t) >= 3 and t[0] == "V" and t[1] == "iter" and t[2] in ("skip", "take", "step_by", "filter", "skip_while", "take_while", "chain", "peekable", "rev")):
             continue
         d = lp.nxt
@@ -167,7 +169,7 @@ def full_traversal_loop(ctx, cfg, a, body, owners, cl, owner_local, finisher_bb)
             if not (peq(a, d.facts, p[2], Poly.const(0)) and peq(a, d.facts, p[3], N)):
                 continue
             role, ok, det, info = check_closure_protocol(a, cl, lp)
-            if role not in ("consumer", "builder") or info["normal_problems"] or info["at_break"]:
+            if role not in ("consumer", "builder") or info["normal_problems"]:
                 continue
             if any(pid[0] == ("local", owner_local) and pid[1] in o["pos"] for pid in info["positions"]):
                 return lp
@@ -183,11 +185,8 @@ def check_finishers(ctx, cfg):
     for b in db.bodies:
         if b["kind"] not in ("Fn", "AssocFn"):
             continue
-        text_has = any(t["term"]["k"] == "call" and t["term"]["f"].get("k") == "fn" and
-                       (t["term"]["f"]["def"] == "core::mem::forget" or t["term"]["f"]["def"].endswith("::finish") or t["term"]["f"]["def"].endswith("::assume_init"))
-                       for t in b["mir"]["blocks"])
-        if not text_has:
-            continue
+        if ctx.is_helper(cfg, b):
+            continue  # judged inlined in its callers
         a = ctx.analysis(cfg, b["key"])
         for c in a.calls:
             is_fin = c.key in FINISH_KEYS
